@@ -442,7 +442,33 @@ class Gen:
             txt.append(en + at + (' = ' + ' '.join(v) if v else ''))
         trailing_comma = ',' if txt and rng.random() < 0.3 else ''
         ns.enums.append(T.EnumDecl(typename=T.PQName([seg], classkey=key), values=vals, base=BASES[base]() if base else None))
-        return key + (' ' + name if name else '') + (' : ' + base if base else '') + ' { ' + ', '.join(txt) + trailing_comma + ' };'
+        lead, tail = '', ''
+        if rng.random() < 0.3:
+            # declarators of the enum type behind the closing brace; cv-qualifiers in front of the key or behind the brace
+            # belong to the type of every one of them
+            self.kinds.add('enum with declarators')
+            lc, lv = rng.random() < 0.3, rng.random() < 0.15
+            tc = (not lc) and rng.random() < 0.3
+            static = rng.random() < 0.2
+            lead = ('static ' if static else '') + ('const ' if lc else '') + ('volatile ' if lv else '')
+            parts = []
+            for i in range(rng.choice([1, 2, 3])):
+                while True:
+                    t = decl.rand_type(rng, rng.choice([0, 0, 1, 2]))
+                    if decl.legal(t) and decl.var_ok(t) and decl.kind(t) != 'F' and not any(l[0] == 'F' for l in decl.layers(t)[1]):
+                        break
+                b, ls = decl.layers(t)
+                vn = self.fresh('v')
+                parts.append(' '.join(decl.print_layers(ls, [vn])))
+                rt = real_type(self.rebase(t, 'Foo'))
+                node = rt
+                while not isinstance(node, T.Type):
+                    node = getattr(node, 'ptr_to', None) or getattr(node, 'ref_to', None) or getattr(node, 'moveref_to', None) or getattr(node, 'array_of', None)
+                node.typename = T.PQName([seg], classkey=key)
+                node.const, node.volatile = lc or tc, lv
+                ns.variables.append(T.Variable(name=nm(vn), type=rt, static=static))
+            tail = (' const' if tc else '') + ' ' + ', '.join(parts)
+        return lead + key + (' ' + name if name else '') + (' : ' + base if base else '') + ' { ' + ', '.join(txt) + trailing_comma + ' }' + tail + ';'
 
     def forward(self, ns, tmpl=None, tmpl_text=''):
         rng = self.rng
